@@ -116,6 +116,27 @@ def check_file(res, f, where=''):
     return got
 
 
+def cli_sections(res, f):
+    """The command line's `processes`, `kexts` and `images` commands print the dump's sections."""
+    import json
+    from vlib import cli
+    m = f['model']
+    want = {'processes': m['processes'], 'kexts': {'Binaries': m['kexts']}, 'images': m['images']}
+    for cmd, exp in want.items():
+        out, exc, _ = cli.run(cmd, f['data'])
+        if exc is not None:
+            res.violation(f'c03-cli-raises-{core.exc_name(exc)}', f'`{cmd}`: {exc!r}', case_of(f))
+            return
+        try:
+            got = json.loads(out)
+        except ValueError:
+            got = out
+        res.count('cli_sections_compared')
+        if got != exp:
+            res.violation(f'c03-cli-{cmd}', f'`{cmd}` prints {str(got)[:200]}, the dump holds {str(exp)[:200]}', case_of(f))
+            return
+
+
 def deferred_consumption(res, rng):
     """Two parses requested on one parser object before either is consumed (generators are lazy), then consumed one
     after the other: each dump's sections, inspected right after its own exhaustion, must be its own."""
@@ -218,6 +239,8 @@ def run(ctx):
             res.case(f['data'], nontrivial=bool(f['records'] or f['spec'].blocks))
             if i % 5 == 0:
                 partition_check(res, f)
+            if i % 6 == 0 and f['model'] is not None:
+                cli_sections(res, f)
             if i % 4 == 0:
                 deferred_consumption(res, rng)
         # large dumps: many records in many chunks, hundreds of thread-map entries and log records
@@ -267,6 +290,7 @@ def run(ctx):
     res.require('files_with_empty_chunk', 1)
     res.require('contract_evaluations', 1)
     res.require('deferred_parses_checked', 4)
+    res.require('cli_sections_compared', 6)
     res.require('marker_straddle_files', 20)
     return res
 
